@@ -113,7 +113,7 @@ class Case:
         self.ops.append(kw)
 
 
-def via_registry(c):
+def via_registry(c, foreign=None):
     """the same case asked through the top-level API (create_store / add_record / set_limit / set_markers / run_search)
     with a stand-alone store driven in lock-step as the specification's view of the records: the properties speak of
     what a user of the library gets, and lib.rs is the way most users reach a store"""
@@ -125,6 +125,10 @@ def via_registry(c):
             twin["sid"] = 1000 + op["sid"]
             if o == "new":
                 d.op(op="r_create", id=op["sid"], lang=op["lang"])
+                if foreign and foreign != op["lang"] and not any(x.get("op") == "r_create" and x.get("id") == 99 for x in d.ops):
+                    # another id with another language lives on the same thread and is asked every input first
+                    d.op(op="r_create", id=99, lang=foreign)
+                    d.op(op="r_add", id=99, rid=1, title=cps("running shoes größe straße"), rating=1)
             elif o == "add":
                 d.op(op="r_add", id=op["sid"], rid=op["id"], title=op["title"], rating=op["rating"])
             elif o == "limit":
@@ -137,6 +141,8 @@ def via_registry(c):
         elif o == "search":
             keep = [w for w in op.get("want", []) if w in ("singles", "unlimited")]
             d.search(1000 + op["sid"], op["q"], tag="sa%d" % op["sid"], want=["qtok"] + keep, rep=1)
+            if any(x.get("op") == "r_create" and x.get("id") == 99 for x in d.ops):
+                d.op(op="r_search", id=99, q=op["q"])
             d.op(op="r_search", id=op["sid"], q=op["q"], **({"expect": op["expect"]} if "expect" in op else {}))
         else:
             return None          # a case with steps the top-level API does not have
@@ -280,19 +286,43 @@ def edits_of(w, letters, rnd, per_pos=2):
     return out
 
 
-def gen_edit_cases(lang, rnd, titles, toks, ncases, per_pos=2):
+def three_letter_words(lang, rnd, n):
+    """the lower bound of C04's domain: words of five to seven letters with exactly three distinct letters, in every
+    arrangement class (two of them single, one single, none single)"""
+    letters = script_letters(lang)
+    out = []
+    for _b in range(n):
+        a, b, c3 = rnd.sample(letters, 3)
+        n5 = rnd.randint(5, 7)
+        pat = rnd.choice([[a] * (n5 - 2) + [b, c3], [a] * (n5 - 3) + [b, b, c3], [a, a, b, b] + [c3] * (n5 - 4)])
+        if rnd.random() < 0.5:
+            mid = pat[1:-1]
+            rnd.shuffle(mid)
+            pat = [pat[0]] + mid + [pat[-1]]
+        else:
+            pat = rnd.sample(pat, len(pat))
+        out.append("".join(pat))
+    return out
+
+
+def gen_edit_cases(lang, rnd, titles, toks, ncases, per_pos=2, extra=()):
     """C04"""
     letters = script_letters(lang)
     cases = []
     tries = 0
-    while len(cases) < ncases and tries < ncases * 20:
+    boundary = list(extra)
+    while len(cases) < ncases + len(boundary) and tries < (ncases + len(boundary)) * 20:
         tries += 1
-        t = rnd.choice(titles)
+        t = rnd.choice(titles) if len(cases) >= len(boundary) else boundary[len(cases)]
         tok = toks.get((lang, t))
         if not tok:
+            if len(cases) < len(boundary):
+                boundary[len(cases)] = rnd.choice(titles)
             continue
         ws = [(i, w) for i, w in enumerate(words_of(tok)) if len(w) >= 5 and len(set(w)) >= 3 and all(chr(x).isalpha() for x in w)]
         if not ws:
+            if len(cases) < len(boundary):
+                boundary[len(cases)] = rnd.choice(titles)
             continue
         c, sid, rid = small_store_case("C04", "edit", lang, rnd, titles, t)
         edits = [(wi, kind, v) for wi, w in ws for kind, v in edits_of(w, letters, rnd, per_pos)]
@@ -1377,6 +1407,48 @@ def gen_prepare_cases(lang, rnd, titles, toks, ncases):
                 c.op(op="prepare", sid=sid, q=cps(w), size=size)
                 c.op(op="prepare", sid=sid, q=cps(w[:3]), size=size)
         cases.append(c)
+    # a query of very many grams (a whole long title typed), more than the cap of records sharing nearly all of them, and
+    # the record that shares them all added last
+    for size in (1, 2):
+        c = Case("C18", "prepare-long-query", lang=lang)
+        sid = c.new_store(lang)
+        w = rand_word(rnd, letters, 36, 44)
+        n = 10 * size + rnd.randint(1, 4)
+        for i in range(n):
+            c.add(sid, i + 1, w[:rnd.randint(len(w) - 4, len(w) - 1)], rnd.randint(0, 100))
+        c.add(sid, n + 1, w, 0)
+        c.op(op="prepare", sid=sid, q=cps(w), size=size)
+        c.op(op="prepare", sid=sid, q=cps(w + " " + w[:5]), size=size)
+        cases.append(c)
+    # words that differ only in a first character cut to 16 bits (and the like): all of them as records, alone and in
+    # pairs, and as queries - grams are triples of characters, however they are packed
+    if lang in ("none", "en"):
+        heads = [0x74, 0x10074, 0x73, 0x10073, 0xD42C, 0x1D42C]
+        words = [[h] + cps(t) for h in heads for t in ("sa", "us")]
+        c = Case("C18", "prepare-colliding", lang=lang)
+        sid = c.new_store(lang)
+        nid = 1
+        for wd in words:
+            c.add(sid, nid, wd, 1)
+            nid += 1
+        twins = [([h1] + cps(t), [h2] + cps(t)) for h1, h2 in ((0x74, 0x10074), (0x73, 0x10073), (0xD42C, 0x1D42C)) for t in ("sa", "us")]
+        for a, b in twins:
+            for x, y in ((a, b), (b, a)):
+                c.add(sid, nid, x + [32] + y, 1)
+                nid += 1
+        for _k in range(6):
+            a, b = rnd.sample(words, 2)
+            c.add(sid, nid, a + [32] + b, 1)
+            nid += 1
+        for wd in words:
+            c.op(op="prepare", sid=sid, q=wd, size=3)
+        for a, b in twins:
+            c.op(op="prepare", sid=sid, q=a + [32] + b, size=3)
+            c.op(op="prepare", sid=sid, q=[120] + a + [32, 120] + b, size=3)
+        for _k in range(8):
+            a, b = rnd.sample(words, 2)
+            c.op(op="prepare", sid=sid, q=[120] + a[1:] + [32] + b, size=3)
+        cases.append(c)
     return cases
 
 
@@ -1739,7 +1811,7 @@ def gen_gate_cases(rnd, tier):
                 v = w[:rnd.randint(1, len(w))]
             if not v:
                 continue
-            c.op(op="gate", r=w, q=v, qfin=rnd.random() < 0.4)
+            c.op(op="gate", r=w, q=v, qfin=rnd.random() < 0.4, **({"lang": rnd.choice(LANGS)} if k % 3 else {}))
         cases.append(c)
     return cases
 
